@@ -130,8 +130,13 @@ def build_trees(base: Path):
         # several hidden folders side by side (none of them in the built-in exclusions), each holding supported files
         ".storybook/main.js": tree.flat_file("JavaScript", [4]), ".husky/hook.py": tree.flat_file("Python", [3]), ".a/x.py": tree.flat_file("Python", [2]),
         ".b/y.c": tree.flat_file("C", [2]), ".c/z.java": tree.flat_file("Java", [2]), "src/.h1/a.py": "x = 1\n", "src/.h2/b.py": tree.flat_file("Python", [5]),
+        # two names that differ only in Unicode normalisation form (distinct files to the file system), different content
+        "enc/caf\u00e9.py": tree.flat_file("Python", [3]), "enc/cafe\u0301.py": tree.flat_file("Python", [4, 2]),
         "enc/latin1.py": "# caf\xe9\ndef f(a):\n    return a\n".encode("latin-1"), "enc/utf8.py": "def gr\u00f6\u00dfe(a):\n    return 'gr\u00fc\u00df'\n",
     })
+    # directories reachable a second time through a symbolic link (never followed by the scan, whatever the walk order)
+    os.symlink("../lib", t / "src" / "vendored")
+    os.symlink("../../src", t / "lib" / "x" / "up")
     tree.write_files(u, {
         "app/main.py": tree.flat_file("Python", [7]), "generated/skip.py": tree.flat_file("Python", [2]), "x_pb2.py": "x = 1\n", "src/c.js": "function f(",
         ".gitignore": "generated/\n*_pb2.py\nsrc/a.py\n", ".codelimit.yml": "exclude:\n  - \"lib/\"\n  - \"*.js\"\n",
